@@ -148,12 +148,14 @@ _C03_STAGES = {
     "quick": [
         {"flavor": "native", "shards": 16, "scale": 100},
         {"flavor": "relfast", "shards": 16, "scale": 50},
+        {"flavor": "debug", "shards": 8, "scale": 2},
         {"flavor": "asan", "shards": 16, "scale": 30, "optional": True, "env": {"ASAN_OPTIONS": "halt_on_error=1:detect_leaks=1:abort_on_error=0"}},
         {"flavor": "miri", "shards": 16, "scale": 100, "optional": True, "timeout": 900},
     ],
     "thorough": [
         {"flavor": "native", "shards": 16, "scale": 100},
         {"flavor": "relfast", "shards": 16, "scale": 50},
+        {"flavor": "debug", "shards": 16, "scale": 3},
         {"flavor": "asan", "shards": 16, "scale": 30, "optional": True, "env": {"ASAN_OPTIONS": "halt_on_error=1:detect_leaks=1:abort_on_error=0"}},
         {"flavor": "miri", "shards": 16, "scale": 100, "optional": True, "timeout": 3600},
     ],
@@ -171,8 +173,8 @@ prop(
          "NUL,CR,LF,0x80-0xFF / duplication / truncation / 1000+-byte runs / odd Content-Length, lengths 0..60 KiB. Every pure "
          "parsing entry point is called on each input; connections are driven by random schedules of reads (sizes 1..100000), "
          "read errors, EOF, writes with faults, enqueue and pop that continue after every error; a real socketpair family "
-         "covers recvmsg/SCM_RIGHTS. The same workload runs in four flavours: overflow-checks+debug-assertions on, off, "
-         "AddressSanitizer, and a reduced Miri run aimed at reads with a large carried prefix. evaluations = cases over all "
+         "covers recvmsg/SCM_RIGHTS. The same workload runs in five flavours: overflow-checks+debug-assertions on, off, "
+         "an unoptimised build (a small share; real stack frames, no tail calls), AddressSanitizer, and a reduced Miri run aimed at reads with a large carried prefix. evaluations = cases over all "
          "flavours; distinct_nontrivial = distinct inputs (pure) plus distinct (input, schedule) whose connection kept being "
          "used after an error.",
     assumptions=[
